@@ -3,6 +3,7 @@ module verif
 go 1.23.2
 
 require (
+	github.com/evanphx/json-patch v4.12.0+incompatible
 	github.com/pingcap/advanced-statefulset v0.0.0
 	github.com/pingcap/advanced-statefulset/client v0.0.0
 	k8s.io/api v0.28.14
@@ -19,7 +20,6 @@ require (
 	github.com/davecgh/go-spew v1.1.1 // indirect
 	github.com/distribution/reference v0.6.0 // indirect
 	github.com/emicklei/go-restful/v3 v3.9.0 // indirect
-	github.com/evanphx/json-patch v4.12.0+incompatible // indirect
 	github.com/go-logr/logr v1.3.0 // indirect
 	github.com/go-openapi/jsonpointer v0.19.6 // indirect
 	github.com/go-openapi/jsonreference v0.20.2 // indirect
